@@ -30,51 +30,96 @@ def notation(fields):
 KIND_ABBR = {"int32": "i32", "uint32": "u32", "int64": "i64", "uint64": "u64", "float32": "f32", "float64": "f64", "bool": "b", "string": "s"}
 
 
-def typed_notation(fields, prim_offset=0):
-    """The notation vt.Node.Notation() produces for the emitted struct (embedded inlined, excluded dropped)."""
-    ctr = [prim_offset]
+def annotate(fields, prims=None, prim_offset=0, tag_all=False):
+    """Give every column field a fixed name, tag and (for leaves) Go type, in declaration order:
+      ("leaf", rep, name, tag, prim)   ("group", rep, fields, name, tag)   embedded/excluded unchanged.
+    Already annotated fields are kept, so program transformations preserve names and types."""
+    prims = prims or PRIMS
+    ctr = {"f": 0, "p": prim_offset}
 
     def walk(fs):
         out = []
         for f in fs:
             if f[0] == "leaf":
-                out.append(REP_PREFIX[f[1]] + KIND_ABBR[PRIMS[ctr[0] % len(PRIMS)]])
-                ctr[0] += 1
+                if len(f) >= 5:
+                    out.append(f)
+                    continue
+                ctr["f"] += 1
+                name = "N%d" % ctr["f"]
+                tag = name.lower() if (ctr["f"] % 2 == 1 or tag_all) else ""
+                out.append(("leaf", f[1], name, tag, prims[ctr["p"] % len(prims)]))
+                ctr["p"] += 1
+            elif f[0] == "group":
+                if len(f) >= 5:
+                    out.append(("group", f[1], walk(f[2]), f[3], f[4]))
+                    continue
+                ctr["f"] += 1
+                name = "N%d" % ctr["f"]
+                tag = name.lower() if (ctr["f"] % 2 == 1 or tag_all) else ""
+                out.append(("group", f[1], walk(f[2]), name, tag))
+            elif f[0] == "embedded":
+                out.append(("embedded", walk(f[1])))
+            else:
+                out.append(f)
+        return out
+    return walk(fields)
+
+
+def typed_notation(fields, prim_offset=0, prims=None):
+    """The notation vt.Node.Notation() produces for the emitted struct (embedded inlined, excluded dropped)."""
+    fields = annotate(fields, prims=prims, prim_offset=prim_offset)
+
+    def walk(fs):
+        out = []
+        for f in fs:
+            if f[0] == "leaf":
+                out.append(REP_PREFIX[f[1]] + KIND_ABBR[f[4]])
             elif f[0] == "group":
                 out.append(REP_PREFIX[f[1]] + "{" + walk(f[2]) + "}")
             elif f[0] == "embedded":
-                out.append(walk(f[1]))
+                w = walk(f[1])
+                if w:
+                    out.append(w)
         return ",".join(out)
     return "{" + walk(fields) + "}"
 
 
-class Emitter:
-    """Emits types.go for a shape. Field names A,B,C..; columns are tagged with the lower-case
-    name for even positions and left untagged (column = Go field name) for odd ones."""
+def column_paths(fields, prim_offset=0, prims=None, tag_all=False):
+    fields = annotate(fields, prims=prims, prim_offset=prim_offset, tag_all=tag_all)
+    out = []
 
-    def __init__(self, pkg, prim_offset=0, tag_all=False):
+    def walk(fs, path):
+        for f in fs:
+            if f[0] == "leaf":
+                out.append(".".join(path + [f[3] or f[2]]))
+            elif f[0] == "group":
+                walk(f[2], path + [f[4] or f[3]])
+            elif f[0] == "embedded":
+                walk(f[1], path)
+    walk(fields, [])
+    return out
+
+
+class Emitter:
+    """Emits types.go for an (annotated) shape."""
+
+    def __init__(self, pkg):
         self.pkg = pkg
         self.types = []
-        self.nprim = prim_offset
         self.ntype = 0
-        self.nfield = 0
-        self.tag_all = tag_all
+        self.nx = 0
 
     def struct(self, name, fields):
         lines = []
-        for i, f in enumerate(fields):
-            self.nfield += 1
-            fname = "N%d" % self.nfield
-            tag = ' `parquet:"%s"`' % fname.lower() if (self.nfield % 2 == 1 or self.tag_all) else ""
+        for f in fields:
             if f[0] == "leaf":
-                t = PRIMS[self.nprim % len(PRIMS)]
-                self.nprim += 1
-                lines.append("\t%s %s%s%s" % (fname, REP_PREFIX[f[1]], t, tag))
+                tag = ' `parquet:"%s"`' % f[3] if f[3] else ""
+                lines.append("\t%s %s%s%s" % (f[2], REP_PREFIX[f[1]], f[4], tag))
             elif f[0] == "group":
-                self.ntype += 1
-                tn = "T%d" % self.ntype
+                tn = "T" + f[3]
                 self.struct(tn, f[2])
-                lines.append("\t%s %s%s%s" % (fname, REP_PREFIX[f[1]], tn, tag))
+                tag = ' `parquet:"%s"`' % f[4] if f[4] else ""
+                lines.append("\t%s %s%s%s" % (f[3], REP_PREFIX[f[1]], tn, tag))
             elif f[0] == "embedded":
                 self.ntype += 1
                 tn = "E%d" % self.ntype
@@ -82,25 +127,27 @@ class Emitter:
                 lines.append("\t%s" % tn)
             elif f[0] == "excluded":
                 how, gt = f[1], f[2]
+                self.nx += 1
                 if how == "dash":
-                    lines.append('\tX%d %s `parquet:"-"`' % (i, gt))
+                    lines.append('\tX%d %s `parquet:"-"`' % (self.nx, gt))
                 elif how == "underscore":
-                    lines.append("\t_x%d %s" % (i, gt))
+                    lines.append("\t_x%d %s" % (self.nx, gt))
+                elif how == "nonascii":
+                    lines.append("\t\u00e9x%d %s" % (self.nx, gt))
                 else:
-                    lines.append("\tx%d %s" % (i, gt))
+                    lines.append("\tx%d %s" % (self.nx, gt))
         self.types.append("type %s struct {\n%s\n}\n" % (name, "\n".join(lines)))
 
-    def source(self, fields, imports=()):
+    def source(self, fields, imports=(), extra=""):
         self.struct("Rec", fields)
         imp = ""
         if imports:
             imp = "import (\n" + "".join('\t"%s"\n' % i for i in imports) + ")\n\n"
-            imp += "".join("var _ %s\n" % u for u in [])
-        return "package %s\n\n%s%s" % (self.pkg, imp, "\n".join(self.types))
+        return "package %s\n\n%s%s%s" % (self.pkg, imp, extra, "\n".join(self.types))
 
 
-def emit(pkg, fields, prim_offset=0, imports=(), tag_all=False):
-    return Emitter(pkg, prim_offset, tag_all).source(fields, imports)
+def emit(pkg, fields, prim_offset=0, imports=(), tag_all=False, prims=None, extra=""):
+    return Emitter(pkg).source(annotate(fields, prims=prims, prim_offset=prim_offset, tag_all=tag_all), imports, extra)
 
 
 # ---------------------------------------------------------------------------
@@ -271,7 +318,8 @@ def build_lab(W, shapes, prefix="s", determinism=True, emit_kw=None):
             name, fields = futs[fut][0], futs[fut][1]
             r = fut.result()
             r["notation"] = notation(fields)
-            r["typed"] = typed_notation(fields, (futs[fut][2] or {}).get("prim_offset", 0))
+            kw_ = futs[fut][2] or {}
+            r["typed"] = typed_notation(fields, kw_.get("prim_offset", 0), kw_.get("prims"))
             r["source"] = futs[fut][3]
             res[name] = r
     ok = [n for n, r in res.items() if r["ok"]]
